@@ -18,7 +18,7 @@ PROP = "C05"
 LEVEL = "exploration"
 RULE = ("A case is one seeded history of transfer/distribute/dispense-with-composition/add/aspirate/remove calls "
         "(serial dilutions, within-labware and within-well transfers, wells emptied and refilled, zero-volume steps, "
-        "troughs, shared component names, every naming configuration) in the quarter or centi volume regime, stepped "
+        "troughs, shared component names, every naming configuration; in half of the runs about one call in seven is aimed to be rejected) in the quarter or centi volume regime, stepped "
         "in lock-step with an exact-arithmetic mixing model. Distinct = distinct event-log digest; non-trivial = at "
         "least one liquid operation succeeded.")
 COMPONENTS = {"real": ["Labware/Trough composition tracking", "EvoWorklist/FluentWorklist.transfer/distribute/dispense"],
@@ -41,6 +41,7 @@ class C05Oracle(Oracle):
         self.pre_tot = None
         self.checked_names = False
         self.transfers_ok = 0
+        self.rejected_seen = 0
 
     # ------------------------------------------------------------------ helpers
     def totals(self):
@@ -121,8 +122,27 @@ class C05Oracle(Oracle):
             return
         if not out.ok:
             if liquid:
+                # A rejected liquid operation may have applied some of its sub-steps. The model cannot know which:
+                # narrowly, the wells the call addressed become "content unknown" (exempt from mix/sum until they
+                # are emptied and refilled), their volumes are taken over, everything else must be untouched -
+                # and the history goes on, so that state left behind by a failed call is seen by later steps.
                 self.res.ended_by_rejection = True
-                self.stop = True
+                try:
+                    pl = opsmod.plan(op, self.sess.geos)
+                except opsmod.PlanInvalid:
+                    self.stop = True
+                    return
+                touched = opsmod.addressed(pl)
+                if not self.same_comp(self.pre_snap, self.comp_snapshot(), touched):
+                    self.fail("C05.frame", i, op, oc, f"the rejected {k} changed the composition of a well it did not address")
+                    self.stop = True
+                    return
+                for (li, w) in touched:
+                    v = self.sess.volumes(li)[w]
+                    if v == v:
+                        self.ledger.vol[li][w] = frac(v)
+                    self.ledger.taint[li].add(w)
+                self.rejected_seen += 1
             return
         if not liquid:
             return
@@ -293,12 +313,24 @@ class Program:
         r = rng.random()
         self.n = rng.randint(1, 8) if r < 0.6 else rng.randint(8, 20) if r < 0.9 else rng.randint(20, 60)
         self.mode = rng.choice(["mixed", "mixed", "dilution", "within"])
+        self.p_fault = rng.choice([0.0, 0.0, 0.1, 0.2])
 
     def source(self, i, sess):
         if i >= self.n:
             return None
         rng, g = self.rng, self.gen
         r = rng.random()
+        if rng.random() < self.p_fault:
+            kind = rng.choice(["transfer", "transfer", "distribute", "dispense", "aspirate"])
+            if kind == "transfer":
+                return g.gen_transfer(sess, rng.choice(["reject.underflow", "reject.overflow"]))
+            if kind == "distribute":
+                d = g.gen_distribute(sess, rng.choice(["reject.underflow", "reject.overflow"]))
+                if d is not None:
+                    return d
+            if kind == "dispense":
+                return g.gen_addremove(sess, "dispense", intent="reject.overflow")
+            return g.gen_addremove(sess, "aspirate", intent="reject.underflow")
         if self.mode == "within" and r < 0.5:
             li = rng.randrange(len(self.world["labware"]))
             return g.gen_transfer(sess, "ok", si=li, di=li)
